@@ -37,6 +37,8 @@ def cmd_check(args) -> int:
     repo_root = args.repo or os.environ.get("LSA_REPO") or "/repo"
     try:
         ctx = run_rules(args.prop, repo_root, tier)
+        if args.replay:
+            return replay(ctx, args.replay)
         selftest = None
         if tier == "thorough" and not args.no_selftest:
             from .selftest.runner import run_selftest
@@ -57,6 +59,27 @@ def cmd_check(args) -> int:
         traceback.print_exc()
         print(f"ANALYSIS-ERROR property={args.prop} internal error (traceback above)")
         return 2
+
+
+def replay(ctx, path: str) -> int:
+    """Re-evaluate just the obligations recorded in a violations file on the current
+    tree and print their diagnostics again."""
+    import json
+    with open(path) as fh:
+        wanted = {(v["rule"], v["construct"], v["what"]) for v in json.load(fh)["violations"]}
+    still = 0
+    for o in ctx.obligations:
+        if (o.rule, o.construct, o.what) in wanted:
+            state = "holds now" if o.ok else o.status
+            print(f"{o.where} {o.construct} -- {o.rule} [{state}] -- {o.what} -- {o.detail}")
+            still += 0 if o.ok else 1
+    missing = wanted - {(o.rule, o.construct, o.what) for o in ctx.obligations}
+    for m in sorted(missing):
+        print(f"(obligation no longer generated on this tree: {m[0]} {m[1]})")
+    if still:
+        print(f"VIOLATION property={ctx.prop} replay={path}")
+        return 1
+    return 0
 
 
 def cmd_selftest(args) -> int:
